@@ -146,3 +146,13 @@ CHECKS.update({
   "Literals in function position inside never-entered lambdas are counted, not judged."),
 })
 ENGINES[2]["serves_properties"] += ["C21","C22"]
+
+CHECKS.update({
+ "C12": e2("explicit-state BFS over AddFeature/AddTag/RemoveTag histories with a canonical key of ALL private overlay state (fixpoint for one-feature alphabets; 63-op alphabet to depth 2/4, 31-op to depth 6) against a plain-map reference",
+  "MutableOverlayWorld over a basic base: keys #s/@t/plain, values x/y, ids in base, overlay and absent; after every transition HasFeatureWithID, FindFeatureByID tags + Get, EachFeature (each ID once) and nine searches equal the reference map; untouched base features read as in the base; equal keys must show equal dumps (harness self-check).",
+  "Epoch counter, spare slice capacity and index AVL shape are not in the key (the latter made the graph unbounded through the tree's drifting length field)."),
+ "C03": e2("every query tree of depth <=2/3 (85 / 14.5k queries) at every representative state of the C12 state graph + 555 queries on menu worlds under 11 static world configurations, against an independent predicate over the reference tags",
+  "FindFeatures must return exactly the features whose current tags satisfy the query (RQ.Eval), each once, in strictly increasing FeatureID order, on basic, basic-mutable, mutable overlay (after any edit history), OverlayWorld, compact and compact merged from two files.",
+  "tagged only over '#' keys; 'all' means every feature except a point whose only tag is its location; typed for point/path/area/relation. Query.Matches is cross-checked, not used as oracle."),
+})
+ENGINES[2]["serves_properties"] += ["C12","C03"]
